@@ -123,14 +123,15 @@ impl Cw20Scen {
     fn page_all(&self, limit: Option<u32>, f: &dyn Fn(Option<String>, Option<u32>) -> Option<Vec<String>>) -> Vec<String> {
         let mut out: Vec<String> = vec![];
         let mut cursor: Option<String> = None;
-        for _ in 0..10_000 {
+        let mut guard = WalkGuard::default();
+        for _ in 0..MAX_WALK_PAGES {
             match f(cursor.clone(), limit) {
                 Some(p) if !p.is_empty() => {
                     // the cursor is the key part (up to the first ':')
                     let last = p.last().unwrap().clone();
                     let next = Some(last.split(':').next().unwrap().to_string());
                     out.extend(p);
-                    if next == cursor {
+                    if next == cursor || !guard.fresh(&next) {
                         break; // no progress (a defect in the code under test): do not walk forever
                     }
                     cursor = next;
